@@ -749,7 +749,7 @@ func (e *authExec) Do(op []string) string {
 	case len(op) == 2 && op[0] == "boot":
 		pre := unescList(op[1])
 		for _, p := range pre {
-			if _, ok := dirName(p); !ok || strings.Contains(p, "/") || strings.Contains(p, "--") {
+			if _, ok := dirName(p); !ok || strings.HasPrefix(p, "/") || strings.HasSuffix(p, "/") || strings.Contains(p, "//") || strings.Contains(p, "--") {
 				return "bad-op"
 			}
 		}
@@ -761,6 +761,14 @@ func (e *authExec) Do(op []string) string {
 		for _, f := range strings.Fields(ans)[1:] {
 			if strings.HasSuffix(f, "=1") {
 				e.fail("ready-before-recover", "stage %s answers Ready() = true when init returns although its Recover goroutine has not run yet", f)
+			}
+		}
+		// oracle (Props/C15 not_ready_during_recover): while the recoveries are still held, the
+		// stage of every source found at start-up must be the one requests for that source
+		// reach (else such a request gets a fresh, ready stage over a directory in recovery)
+		for _, p := range pre {
+			if e.proc.must("ready "+esc(p)) == "none" {
+				e.fail("served-while-recovering", "the stage found at start-up for source %q is not registered under that source name: a request for it during recovery gets a new, ready stage over the same directories", p)
 			}
 		}
 		// let the recoveries end
